@@ -798,3 +798,16 @@ V("c10b-letters-renamed", "C10", "silent",
   (PURESTEPS, "        initial_state_einsum_string = \"ji,jkl->ikl\" if is_batch else \"ji,jk->ik\"\n", "        initial_state_einsum_string = \"ab,acd->bcd\" if is_batch else \"ab,ac->bc\"\n"))
 V("c10b-conjugate-spelling", "C10", "silent",
   (PURESTEPS, "        conjugated_matrix = np.conj(matrix)\n", "        conjugated_matrix = np.conjugate(matrix)\n"))
+
+# --- C14d doubling layouts (pairwise vs block)
+GSTATE2 = "piquasso/_simulators/gaussian/state.py"
+V("c14d-dphi-pairwise-method", "C14", {"rule": "C14d", "contains": "get_phaseshifter_expectation_value|mixed-orderings"},
+  (GSTATE2, "        D_phi = np.diag(np.concatenate([cot_half_angles, cot_half_angles]))\n", "        D_phi = np.diag(cot_half_angles.repeat(2))\n"))
+V("c14d-dphi-pairwise-function", "C14", {"rule": "C14d", "contains": "get_phaseshifter_expectation_value|mixed-orderings"},
+  (GSTATE2, "        D_phi = np.diag(np.concatenate([cot_half_angles, cot_half_angles]))\n", "        D_phi = np.diag(np.repeat(cot_half_angles, 2))\n"))
+V("c14d-traced-arm-pairwise", "C14", {"rule": "C14d", "contains": "get_phaseshifter_expectation_value|mixed-orderings"},
+  (GSTATE2, "            one_minus_z = np.concatenate([1 - z, 1 - z])\n", "            one_minus_z = np.repeat(1 - z, 2)\n"))
+V("c14d-dphi-tile", "C14", "silent",
+  (GSTATE2, "        D_phi = np.diag(np.concatenate([cot_half_angles, cot_half_angles]))\n", "        D_phi = np.diag(np.tile(cot_half_angles, 2))\n"))
+V("c14d-purify-concatenate-literal", "C14", "silent",
+  (GSTATE2, "        purification.xpxp_mean_vector = np.concatenate([mean] * 2)\n", "        purification.xpxp_mean_vector = np.concatenate([mean, mean])\n"))
